@@ -1306,7 +1306,7 @@ func (c *compiler) evalBlockStatement(node *ast.BlockStatement) (interface{}, er
 		val, exitBlock := i.(exitBlockStatment)
 		if !exitBlock {
 			if i != nil {
-				res = append(res, i)
+				res = append(res, c.settled(i))
 			}
 		} else {
 			var resValue interface{}
@@ -1330,6 +1330,22 @@ func (c *compiler) evalBlockStatement(node *ast.BlockStatement) (interface{}, er
 
 	c.curStmt = outer
 	return res, nil
+}
+
+// settled gives the output of a statement of a block the form it keeps. The
+// values of a block are written when the block is over; a value that a
+// later statement of the block can still change (a slice, a map, what a
+// pointer points to) or whose text depends on the context (the format of a
+// time) is turned into its text now, as it would be at top level.
+func (c *compiler) settled(i interface{}) interface{} {
+	switch i.(type) {
+	case string, template.HTML, ast.Printable, bool,
+		uint, uint8, uint16, uint32, uint64, int, int8, int16, int32, int64, float32, float64:
+		return i
+	}
+	bb := &strings.Builder{}
+	c.write(bb, i)
+	return template.HTML(bb.String())
 }
 
 func (c *compiler) evalStatement(node ast.Statement) (interface{}, error) {
